@@ -80,14 +80,11 @@ func (i *interpreter) rollback() {
 
 // index checks idx against [0,n) (forking a panic path when symbolic) and
 // returns a concrete index (forking per feasible value when symbolic).
-func (i *interpreter) index(idx value, n int) int {
+func (i *interpreter) index(idx value, n int, it types.Type) int {
 	if t, ok := idx.(*sym.Term); ok {
 		ps := psOf(t)
 		cx := ps.cx
-		inb := cx.Cmp(sym.OpUlt, t, cx.Const(t.W, uint64(n)))
-		if n == 0 {
-			inb = cx.False()
-		}
+		inb := inBounds(cx, t, n, it)
 		if !ps.branch(inb) {
 			panic(runtimeErr(fmt.Sprintf("index out of range [symbolic] with length %d", n)))
 		}
@@ -102,7 +99,21 @@ func (i *interpreter) index(idx value, n int) int {
 
 // indexRead reads elems[idx]; a symbolic index over scalar elements becomes
 // an ite chain instead of a fork.
-func (i *interpreter) indexRead(elems []value, idx value) value {
+// inBounds builds 0 <= idx < n for an index of static type it.
+func inBounds(cx *sym.Ctx, t *sym.Term, n int, it types.Type) *sym.Term {
+	if n == 0 {
+		return cx.False()
+	}
+	var wide *sym.Term
+	if b := basicOf(it); b != nil && !isSignedKind(b.Kind()) {
+		wide = cx.Zext(t, 64)
+	} else {
+		wide = cx.Sext(t, 64)
+	}
+	return cx.Cmp(sym.OpUlt, wide, cx.Const(64, uint64(n)))
+}
+
+func (i *interpreter) indexRead(elems []value, idx value, it types.Type) value {
 	t, ok := idx.(*sym.Term)
 	if !ok {
 		k := asInt64(idx)
@@ -114,10 +125,7 @@ func (i *interpreter) indexRead(elems []value, idx value) value {
 	ps := psOf(t)
 	cx := ps.cx
 	n := len(elems)
-	inb := cx.Cmp(sym.OpUlt, t, cx.Const(t.W, uint64(n)))
-	if n == 0 {
-		inb = cx.False()
-	}
+	inb := inBounds(cx, t, n, it)
 	if !ps.branch(inb) {
 		panic(runtimeErr(fmt.Sprintf("index out of range [symbolic] with length %d", n)))
 	}
@@ -147,9 +155,14 @@ func iteChain(cx *sym.Ctx, elems []value, idx *sym.Term) (value, bool) {
 		}
 		ts[k] = t
 	}
+	// run-compressed: ite(idx <= hi0, v0, ite(idx <= hi1, v1, ... vLast)); the
+	// caller has already asserted 0 <= idx < len.
 	r := ts[len(ts)-1]
 	for k := len(ts) - 2; k >= 0; k-- {
-		r = cx.Ite(cx.Eq(idx, cx.Const(idx.W, uint64(k))), ts[k], r)
+		if ts[k] == ts[k+1] {
+			continue // same run
+		}
+		r = cx.Ite(cx.Cmp(sym.OpUle, idx, cx.Const(idx.W, uint64(k))), ts[k], r)
 	}
 	return r, true
 }
